@@ -15,15 +15,31 @@ Lemma fold_left_ext_in {A B} (f g : A -> B -> A) (l : list B) (a : A) :
   (forall a b, f a b = g a b) -> fold_left f l a = fold_left g l a.
 Proof. intro E. revert a. induction l as [|x l IH]; intro a; cbn; [reflexivity|]. now rewrite E, IH. Qed.
 
-Opaque do_fresh do_again ado_again do_run ado_run cycles_budget fuel_budget.
+Opaque do_fresh do_again ado_again do_run ado_run manual_run cycles_budget fuel_budget.
 
 Lemma run_case_hist (c : case) :
+  c_manual c = None ->
   run_case c = run_hist cycles_budget fuel_budget (c_async c) (c_prog c) (case_hist c).
 Proof.
+  intro Hm.
   unfold run_case, run_hist, case_hist. rewrite fold_left_app, !fold_left_map.
   etransitivity; [apply fold_left_ext_in with (g := fun a c0 => rerun_step cycles_budget fuel_budget (p_tock (c_prog c)) (c_async c) a
                      (let '(l, t) := c0 in RFresh l t (p_doers (c_prog c)))); intros a [l t]; reflexivity|].
-  f_equal. unfold run_case0. destruct (c_async c); apply fold_left_ext_in; intros a [l t]; reflexivity.
+  f_equal. unfold run_case0. rewrite Hm. destruct (c_async c); apply fold_left_ext_in; intros a [l t]; reflexivity.
 Qed.
 
-Transparent do_fresh do_again ado_again do_run ado_run cycles_budget fuel_budget.
+
+(* a case driven by hand and then continued by further runs is a manual run followed by the same reruns *)
+Lemma run_case_manual (c : case) n :
+  c_manual c = Some n ->
+  run_case c = fold_left (rerun_step cycles_budget fuel_budget (p_tock (c_prog c)) (c_async c))
+                         (map (fun '(l, t) => RFresh l t (p_doers (c_prog c))) (c_fresh c))
+                         (manual_run n fuel_budget (c_prog c)).
+Proof.
+  intro Hm. unfold run_case. rewrite fold_left_map.
+  etransitivity; [apply fold_left_ext_in with (g := fun a c0 => rerun_step cycles_budget fuel_budget (p_tock (c_prog c)) (c_async c) a
+                     (let '(l, t) := c0 in RFresh l t (p_doers (c_prog c)))); intros a [l t]; reflexivity|].
+  f_equal. unfold run_case0. now rewrite Hm.
+Qed.
+
+Transparent do_fresh do_again ado_again do_run ado_run manual_run cycles_budget fuel_budget.
